@@ -299,7 +299,18 @@ def c_type_for(model, minimum, maximum):
         return 'ERROR'
     except evalexpr.Unsupported:
         return 'UNDECIDED'
-    # signedness: the path of format_type_name taken for this range returns a text that starts with `u` or not
+    # signedness: format_type_name evaluated on the range ...
+    fpn = [x for x in _flow.param_names(ftn) if x != 'self']
+    try:
+        txt, _ = evalexpr.run_function(ftn, {fpn[0]: minimum, fpn[1]: maximum})
+        m_ = re.match(r'^(u?)int(\d+)_t$', txt) if isinstance(txt, str) else None
+        if m_:
+            return ('uint' if m_.group(1) else 'int', int(m_.group(2)))
+    except evalexpr.Raised:
+        return 'ERROR'
+    except evalexpr.Unsupported:
+        pass
+    # ... or, when that is beyond the evaluator: the path of format_type_name taken for this range returns a text that starts with `u` or not
     from . import sem
     ps = sem.paths(ftn, positional=True)
     if ps is None:
@@ -432,6 +443,34 @@ def side_constants(stmt, resolve):
         elif isinstance(n, ast.Return) and isinstance(n.value, ast.Tuple) and len(n.value.elts) >= 2:
             add(n.value.elts[0], 'enc')
             add(n.value.elts[1], 'dec')
+    return out
+
+
+def unattributed_templates(f, resolve):
+    """Helper-call templates within reach of f that the side rules cannot attribute to the encode or the decode list: templates inside
+    nested functions (callbacks handed to another method), in helpers whose result goes to a name that says nothing about a side.
+    A pairing verdict is only as good as the attribution, so a mismatch with unattributed templates around is `undecided`."""
+    attributed = set()
+    for s in walk_no_nested(f):
+        if isinstance(s, ast.stmt) and not isinstance(s, (ast.FunctionDef, ast.ClassDef)):
+            for c, _sd in side_constants(s, resolve):
+                attributed.add(id(c))
+    out = []
+    scopes = [f]
+    for n in ast.walk(f):
+        if isinstance(n, ast.Call) and resolve is not None:
+            g = resolve(n)
+            if g is not None and g not in scopes and not returns_pair(g):
+                scopes.append(g)
+    for sc in scopes:
+        for c in strings_in(sc):
+            if id(c) in attributed:
+                continue
+            for m in CALL_RE.finditer(c.value):
+                nm = m.group(1)
+                if nm not in IGNORED and not nm.endswith('_inner') and (nm.startswith(ENC_PREFIX) or nm.startswith(DEC_PREFIX)):
+                    out.append(c)
+                    break
     return out
 
 
